@@ -31,7 +31,7 @@ func init() { register("rerun", cmdRerun); register("rerun-oracle", cmdRerunOrac
 // its result is a member; on a mismatch up to `rerunOracleRetries` further isolated runs are made before "equal": false is
 // recorded.  Plugin logs are not compared (the script is process-global and shared by concurrent runs).
 
-const rerunOracleRetries = 15
+const rerunOracleRetries = 32
 
 type rerunResult struct {
 	OutputID string `json:"output_id"`
@@ -294,7 +294,39 @@ func genRerunInputs(r *rng, wf *AWf) []map[string]any {
 		}
 		out = append(out, in)
 	}
+	// documents the input schema REJECTS: such a run is refused before anything starts, and the prepared workflow must be
+	// as good as new afterwards (the isolated first run of these documents returns the same refusal)
+	if r.chance(2, 3) {
+		for k := 1 + r.intn(2); k > 0; k-- {
+			in := rerunCopyInput(out[r.intn(n)])
+			switch r.intn(5) {
+			case 0:
+				delete(in, "name")
+			case 1:
+				in["name"] = []any{"x"}
+			case 2:
+				in["zz_unknown"] = "x"
+			case 3:
+				in["name"] = map[string]any{"a": "b"}
+			default:
+				in["name"] = nil
+			}
+			out = append(out, in)
+		}
+	}
 	return out
+}
+
+// rerunFirstRefused: index of the first input of a case that the isolated first run refused as invalid input (-1: none)
+func rerunFirstRefused(oracles []*rerunOracle) int {
+	for i, o := range oracles {
+		for _, r := range o.results {
+			if r.ErrClass == "invalidInput" {
+				return i
+			}
+		}
+	}
+	return -1
 }
 
 func runRerunCase(r *rng, caseID string, tier string) map[string]any {
@@ -390,15 +422,22 @@ func runRerunCase(r *rng, caseID string, tier string) map[string]any {
 		}
 		return out
 	}
+	dead := false // a run did not return: its goroutine is lost and every further run would be judged against a wedged process
 	resolve := func() {
 		for _, i := range pending {
 			rec := &runs[i]
+			if rec.Result.Timeout {
+				continue // no isolated run can make "did not return" admissible
+			}
 			for k := 0; k < rerunOracleRetries && !rec.Equal; k++ {
+				// plain and perturbed timings alternate (a perturbation only ever SLOWS steps down, which decides some races
+				// one way: a stop condition against the completion of the step it stops), and so do isolated runs that overlap
+				// like the phase did and a single isolated run
 				b := beh
-				if k >= 3 {
+				if k >= 3 && k%2 == 1 {
 					b = perturbed()
 				}
-				if mix != nil {
+				if mix != nil && k%3 != 2 {
 					rerunOracleRun(oracles, text, b, inputsJ, mix)
 				} else {
 					rerunOracleRun(oracles, text, b, inputsJ, []int{rec.Input})
@@ -411,6 +450,9 @@ func runRerunCase(r *rng, caseID string, tier string) map[string]any {
 	}
 	add := func(rec runRec) {
 		judge(&rec)
+		if rec.Result.Timeout {
+			dead = true
+		}
 		runs = append(runs, rec)
 		if !rec.Equal {
 			pending = append(pending, len(runs)-1)
@@ -433,7 +475,8 @@ func runRerunCase(r *rng, caseID string, tier string) map[string]any {
 	if tier == "thorough" {
 		k += 4
 	}
-	for i := 0; i < k; i++ {
+	refused := rerunFirstRefused(oracles)
+	for i := 0; i < k && !dead; i++ {
 		idx := r.intn(len(inputs))
 		if i == 1 {
 			idx = runs[0].Input // the same input twice in a row
@@ -442,6 +485,9 @@ func runRerunCase(r *rng, caseID string, tier string) map[string]any {
 		if r.chance(1, 5) {
 			cancelAfter = r.intn(6)
 		}
+		if i == 2 && refused >= 0 {
+			idx, cancelAfter = refused, -1 // a refused input between accepted ones
+		}
 		rec := runRec{Mode: "sequential", Which: "A", Input: idx, CancelAfter: cancelAfter, After: last}
 		rec.Result = rerunExecuteOnce(prepared, inputs[idx], cancelAfter)
 		add(rec)
@@ -449,8 +495,39 @@ func runRerunCase(r *rng, caseID string, tier string) map[string]any {
 	}
 	resolve()
 
+	finish := func() map[string]any {
+		for i := range runs { // final verdicts against the final oracle sets
+			judge(&runs[i])
+			runs[i].OracleRuns = len(oracles[runs[i].Input].results)
+		}
+		oj := []any{}
+		unstable := false
+		for i, o := range oracles {
+			oj = append(oj, map[string]any{"input": i, "results": o.results})
+			if len(o.results) > 1 {
+				unstable = true
+			}
+		}
+		allEqual := true
+		for _, rec := range runs {
+			allEqual = allEqual && rec.Equal
+		}
+		out["oracle"] = oj
+		out["oracle_unstable"] = unstable
+		out["runs"] = runs
+		out["equal_all"] = allEqual
+		if dead {
+			out["aborted_after_timeout"] = true
+		}
+		return out
+	}
+	if dead {
+		return finish()
+	}
+
 	// (b) concurrent: N goroutines released together
 	n := 2 + r.intn(7)
+	out["n_concurrent"] = n
 	recs := make([]runRec, n)
 	for i := range recs {
 		recs[i] = runRec{Mode: "concurrent", Which: "A", Input: r.intn(len(inputs)), CancelAfter: -1, After: last}
@@ -480,6 +557,9 @@ func runRerunCase(r *rng, caseID string, tier string) map[string]any {
 		}
 	}
 	resolve()
+	if dead {
+		return finish()
+	}
 	// one more sequential run after the overlap
 	{
 		idx := r.intn(len(inputs))
@@ -489,6 +569,9 @@ func runRerunCase(r *rng, caseID string, tier string) map[string]any {
 		resolve()
 	}
 
+	if dead {
+		return finish()
+	}
 	// (c) a twin prepared from the same text on the same registry, interleaved with the original
 	s.probe.Store(true)
 	twin, err := prepareYAML(reg, f, text, nil)
@@ -498,6 +581,9 @@ func runRerunCase(r *rng, caseID string, tier string) map[string]any {
 	} else {
 		seq := []string{"A", "B", "A", "B"}
 		for _, w := range seq {
+			if dead {
+				break
+			}
 			idx := r.intn(len(inputs))
 			p := prepared
 			if w == "B" {
@@ -508,6 +594,9 @@ func runRerunCase(r *rng, caseID string, tier string) map[string]any {
 			add(rec)
 		}
 		resolve()
+		if dead {
+			return finish()
+		}
 		m := 2 + r.intn(3)
 		trecs := make([]runRec, 2*m)
 		for i := range trecs {
@@ -534,28 +623,7 @@ func runRerunCase(r *rng, caseID string, tier string) map[string]any {
 		}
 		resolve()
 	}
-	for i := range runs { // final verdicts against the final oracle sets
-		judge(&runs[i])
-		runs[i].OracleRuns = len(oracles[runs[i].Input].results)
-	}
-	oj := []any{}
-	unstable := false
-	for i, o := range oracles {
-		oj = append(oj, map[string]any{"input": i, "results": o.results})
-		if len(o.results) > 1 {
-			unstable = true
-		}
-	}
-	allEqual := true
-	for _, rec := range runs {
-		allEqual = allEqual && rec.Equal
-	}
-	out["oracle"] = oj
-	out["oracle_unstable"] = unstable
-	out["runs"] = runs
-	out["equal_all"] = allEqual
-	out["n_concurrent"] = n
-	return out
+	return finish()
 }
 
 // ---- child-process mode: race detector reports and crashes become part of the case -------------------------------------------
@@ -660,6 +728,72 @@ func rerunChildCase(bin string, c *common, i int) map[string]any {
 	return out
 }
 
+// rerunMismatchModes: the modes of the runs of a case that differ from the isolated runs (timeouts excluded: a run that
+// never returns is not a matter of sampling)
+func rerunMismatchModes(out map[string]any) map[string]bool {
+	modes := map[string]bool{}
+	runs, _ := out["runs"].([]any)
+	for _, r := range runs {
+		m, _ := r.(map[string]any)
+		if m == nil {
+			continue
+		}
+		res, _ := m["result"].(map[string]any)
+		if eq, _ := m["equal"].(bool); !eq && res != nil && res["timeout"] != true {
+			modes[fmt.Sprint(m["mode"])] = true
+		}
+	}
+	return modes
+}
+
+// rerunConfirmedCase: the isolated-run oracle of a result that depends on the engine's own scheduling is a SAMPLE of the
+// admissible results.  A run that returns what no sampled isolated run returned is therefore reported only if it
+// reproduces: the case is executed a second time (fresh child process, same seed) and must again contain a run of the
+// same mode that differs from the isolated runs.  State leaking from one run into another reproduces; a rare ordering of
+// one run's own events that the sample missed does not (it is recorded as `unconfirmed`, the runs count as inconclusive).
+func rerunConfirmedCase(bin string, c *common, i int) map[string]any {
+	out := rerunChildCase(bin, c, i)
+	first := rerunMismatchModes(out)
+	if len(first) == 0 || out["aborted_after_timeout"] == true {
+		return out
+	}
+	again := rerunChildCase(bin, c, i)
+	second := rerunMismatchModes(again)
+	confirmed := false
+	for m := range first {
+		if second[m] {
+			confirmed = true
+		}
+	}
+	if confirmed {
+		out["confirmed_by_second_execution"] = true
+		return out
+	}
+	unconfirmed := []any{}
+	runs, _ := out["runs"].([]any)
+	for _, r := range runs {
+		m, _ := r.(map[string]any)
+		if m == nil {
+			continue
+		}
+		res, _ := m["result"].(map[string]any)
+		if eq, _ := m["equal"].(bool); !eq && res != nil && res["timeout"] != true {
+			unconfirmed = append(unconfirmed, map[string]any{"mode": m["mode"], "input": m["input"], "result": res})
+			m["equal"] = true
+			m["unconfirmed"] = true
+		}
+	}
+	out["unconfirmed"] = unconfirmed
+	out["equal_all"] = true
+	// race reports of the second execution are reports all the same
+	if rr, ok := again["race_reports"].([]rerunRaceReport); ok && len(rr) > 0 {
+		if r1, ok := out["race_reports"].([]rerunRaceReport); ok {
+			out["race_reports"] = append(r1, rr...)
+		}
+	}
+	return out
+}
+
 func cmdRerun(args []string) int {
 	var child string
 	c, _ := parseCommon("rerun", args, func(fs *flag.FlagSet) {
@@ -674,17 +808,33 @@ func cmdRerun(args []string) int {
 	w := openOut(c.out)
 	defer w.close()
 	r := newRng(c.seed)
+	wedged := 0 // cases that ended in a run that never returned (25 s each): two of them say all there is to say
 	for i := 0; i < c.n; i++ {
 		cr := r.fork()
 		if i < c.skip {
 			continue
 		}
 		w.emit(map[string]any{"kind": "begin", "index": i})
-		if child != "" {
-			w.emit(rerunChildCase(child, c, i))
+		if wedged >= 2 {
+			w.emit(map[string]any{"kind": "rerun", "id": fmt.Sprintf("rerun-%d-%d", c.seed, i),
+				"skip": "not run: two earlier cases of this stream already ended in a run that never returned"})
 			continue
 		}
-		w.emit(runRerunCase(cr, fmt.Sprintf("rerun-%d-%d", c.seed, i), c.tier))
+		if child != "" {
+			out := rerunConfirmedCase(child, c, i)
+			if a, _ := out["aborted_after_timeout"].(bool); a {
+				wedged++
+			}
+			w.emit(out)
+			continue
+		}
+		out := runRerunCase(cr, fmt.Sprintf("rerun-%d-%d", c.seed, i), c.tier)
+		w.emit(out)
+		if a, _ := out["aborted_after_timeout"].(bool); a {
+			// the goroutine of the run that did not return is lost: this process is done
+			w.close()
+			os.Exit(0)
+		}
 	}
 	return 0
 }
